@@ -11,6 +11,9 @@
 #![allow(clippy::all, dead_code)]
 
 use super::*;
+// explicit imports: do not rely on what the parent module happens to import
+#[allow(unused_imports)]
+use std::io::Cursor;
 use crate::keyset::{DecodedServerCookie, KeySet, KeySetProvider};
 use crate::nts::AeadAlgorithm;
 use serde_json::{Value, json};
